@@ -10,6 +10,7 @@ mod forge;
 mod matrix;
 mod mutate;
 mod pihash;
+mod pubinput;
 mod queries;
 mod resmon;
 mod resource;
@@ -69,6 +70,7 @@ fn main() {
         "pihash" => Some(pihash::run(&args)),
         "boundary" => Some(boundary::run(&args)),
         "coeffs" => Some(coeffs::run(&args)),
+        "pubinput" => Some(pubinput::run(&args)),
         _ => vcomp::dispatch(&args),
     };
     match rep {
